@@ -333,6 +333,15 @@ func cmdCheck(args []string) int {
 					why += "; replay: " + note
 				}
 				violate(o.Name, why, "no-failing-input-found", o, vc)
+			case inBaseModuloOrdinal(inBase, o.Name) && (o.Kind == "post" || o.Kind == "pre" || o.Kind == "token" || strings.HasPrefix(o.Kind, "loop-")):
+				// the same contract clause of the same function (another return, call site or path:
+				// only the ordinal differs) discharged on the committed baseline and does not here
+				r.Status = "violated-" + o.Result + "-new-instance"
+				why := "a contract clause that discharged at every program point of the committed baseline does not discharge at a program point of the changed code: solver says " + o.Result
+				if note != "" {
+					why += "; replay: " + note
+				}
+				violate(o.Name, why, "no-failing-input-found", o, vc)
 			case o.Result == "sat":
 				// not in the baseline (new or re-worded code), but the solver has a counter-model
 				r.Status = "violated-sat-new"
@@ -542,3 +551,28 @@ func writeReplayFile(path, prop, name, why string, o *Obl, vc *VC) {
 }
 
 var replayNotes = map[string]interface{}{}
+
+// inBaseModuloOrdinal: the obligation name with its "#k" ordinal stripped (or with any ordinal) is in the baseline.
+func inBaseModuloOrdinal(inBase map[string]bool, name string) bool {
+	b := name
+	if i := strings.LastIndex(name, "#"); i > 0 {
+		allDigits := i+1 < len(name)
+		for _, c := range name[i+1:] {
+			if c < '0' || c > '9' {
+				allDigits = false
+			}
+		}
+		if allDigits {
+			b = name[:i]
+		}
+	}
+	if inBase[b] {
+		return true
+	}
+	for k := 2; k < 12; k++ {
+		if inBase[fmt.Sprintf("%s#%d", b, k)] {
+			return true
+		}
+	}
+	return false
+}
